@@ -89,14 +89,37 @@ enum Pos {
     Root,
     Seq,
     Map,
+    /// `- &a S` / `- *a`: the second element arrives through an alias
+    AliasSeq,
+    /// `a: &a S` / `b: *a`: the value of `b` arrives through an alias
+    AliasMap,
+    /// `base: &m {k: S}` / `d: {<<: *m}`: `d.k` arrives through a merge
+    MergeVal,
+    /// `S: v`: the scalar is a mapping key
+    Key,
+    /// `S: payload` at the root, read as an externally tagged enum: the scalar names the variant
+    EnumKey,
 }
 const POSITIONS: &[Pos] = &[Pos::Root, Pos::Seq, Pos::Map];
+/// other ways for the same scalar to reach the same target
+const ARRIVALS: &[Pos] = &[Pos::AliasSeq, Pos::AliasMap, Pos::MergeVal, Pos::Key];
 fn pos_name(p: Pos) -> &'static str {
     match p {
         Pos::Root => "root",
         Pos::Seq => "seq",
         Pos::Map => "map",
+        Pos::AliasSeq => "alias-seq",
+        Pos::AliasMap => "alias-map",
+        Pos::MergeVal => "merge-value",
+        Pos::Key => "key",
+        Pos::EnumKey => "enum-key",
     }
+}
+fn pos_of_name(s: &str) -> Pos {
+    [Pos::Root, Pos::Seq, Pos::Map, Pos::AliasSeq, Pos::AliasMap, Pos::MergeVal, Pos::Key, Pos::EnumKey]
+        .into_iter()
+        .find(|p| pos_name(*p) == s)
+        .unwrap_or(Pos::Root)
 }
 
 #[derive(Clone, Copy, Debug, PartialEq, Eq)]
@@ -113,6 +136,8 @@ enum Base {
     /// `Vec<u8>` (goes through `deserialize_seq`; only used for `!!binary` payloads)
     VecU8,
     Val,
+    /// externally tagged enum whose variant names look like scalars of every kind
+    Enum,
 }
 
 #[derive(Clone, Copy, Debug)]
@@ -158,6 +183,7 @@ fn family_of(base: Base) -> &'static str {
         Base::ViaStr => "str",
         Base::Bytes | Base::VecU8 => "bytes",
         Base::Val => "untyped",
+        Base::Enum => "enum",
     }
 }
 
@@ -168,7 +194,7 @@ fn relevant(t: &Tgt, fam: Family) -> bool {
         Base::Bool => fam == Family::Bool,
         Base::Char => fam == Family::Char,
         Base::Bytes | Base::VecU8 => fam == Family::B64,
-        Base::String | Base::ViaStr | Base::Val => true,
+        Base::String | Base::ViaStr | Base::Val | Base::Enum => true,
     };
     b || (t.opt && fam == Family::Null)
 }
@@ -195,7 +221,7 @@ fn oracle_option_mask(base: Base) -> u8 {
         Base::I(_) | Base::U(_) => 4,
         Base::F32 | Base::F64 | Base::Bytes | Base::VecU8 => 0,
         Base::Bool => 1,
-        Base::Char | Base::ViaStr => 1 | 2,
+        Base::Char | Base::ViaStr | Base::Enum => 1 | 2,
         Base::String => 1 | 2 | 8,
         Base::Val => 1 | 4 | 8,
     }
@@ -251,8 +277,101 @@ impl<'de> Deserialize<'de> for ViaStr {
     }
 }
 
+/// A mapping as the list of its (key, value) pairs, for any key type.
+struct Pairs<K>(Vec<(K, String)>);
+impl<'de, K: Deserialize<'de>> Deserialize<'de> for Pairs<K> {
+    fn deserialize<D: Deserializer<'de>>(d: D) -> Result<Pairs<K>, D::Error> {
+        struct V<K>(std::marker::PhantomData<K>);
+        impl<'de, K: Deserialize<'de>> Visitor<'de> for V<K> {
+            type Value = Pairs<K>;
+            fn expecting(&self, f: &mut std::fmt::Formatter) -> std::fmt::Result {
+                f.write_str("a mapping")
+            }
+            fn visit_map<A: serde::de::MapAccess<'de>>(self, mut a: A) -> Result<Pairs<K>, A::Error> {
+                let mut v = Vec::new();
+                while let Some(k) = a.next_key::<K>()? {
+                    let x = a.next_value::<String>()?;
+                    v.push((k, x));
+                }
+                Ok(Pairs(v))
+            }
+        }
+        d.deserialize_map(V(std::marker::PhantomData))
+    }
+}
+
+/// Variant names that look like every kind of scalar.
+#[derive(Deserialize, Debug, PartialEq)]
+enum Named {
+    #[serde(rename = "abc")]
+    Abc,
+    #[serde(rename = "1")]
+    One,
+    #[serde(rename = "0x1F")]
+    Hex,
+    #[serde(rename = "1_000")]
+    Sep,
+    #[serde(rename = "true")]
+    True,
+    #[serde(rename = "yes")]
+    Yes,
+    #[serde(rename = "n")]
+    N,
+    #[serde(rename = "null")]
+    Null,
+    #[serde(rename = "~")]
+    Tilde,
+    #[serde(rename = "1.5")]
+    Float,
+    #[serde(rename = ".inf")]
+    Inf,
+    #[serde(rename = "-0o7")]
+    NegOct,
+    #[serde(rename = "007")]
+    LeadZero,
+    #[serde(rename = "two words")]
+    Spaced,
+    #[serde(rename = "nt")]
+    Nt(String),
+    #[serde(rename = "7")]
+    Seven(i64),
+    #[serde(rename = "off")]
+    Off(bool),
+}
+const NAMED_UNITS: &[(&str, &str)] = &[
+    ("abc", "Abc"),
+    ("1", "One"),
+    ("0x1F", "Hex"),
+    ("1_000", "Sep"),
+    ("true", "True"),
+    ("yes", "Yes"),
+    ("n", "N"),
+    ("null", "Null"),
+    ("~", "Tilde"),
+    ("1.5", "Float"),
+    (".inf", "Inf"),
+    ("-0o7", "NegOct"),
+    ("007", "LeadZero"),
+    ("two words", "Spaced"),
+];
+/// (variant name, payload text, Debug of the expected value)
+const NAMED_NEWTYPES: &[(&str, &str, &str)] = &[("nt", "x", "Nt(\"x\")"), ("7", "12", "Seven(12)"), ("off", "true", "Off(true)")];
+
 fn fetch<T: DeserializeOwned>(doc: &str, pos: Pos, o: Options) -> Result<Option<T>, Error> {
     match pos {
+        Pos::EnumKey => serde_saphyr::from_str_with_options::<T>(doc, o).map(Some),
+        Pos::AliasSeq => serde_saphyr::from_str_with_options::<Vec<T>>(doc, o).map(|mut v| if v.len() == 2 { v.pop() } else { None }),
+        Pos::AliasMap => serde_saphyr::from_str_with_options::<BTreeMap<String, T>>(doc, o)
+            .map(|mut m| if m.len() == 2 { m.remove("b") } else { None }),
+        Pos::MergeVal => serde_saphyr::from_str_with_options::<BTreeMap<String, BTreeMap<String, T>>>(doc, o).map(|mut m| {
+            if m.len() != 2 {
+                return None;
+            }
+            let mut d = m.remove("d")?;
+            if d.len() == 1 { d.remove("k") } else { None }
+        }),
+        Pos::Key => serde_saphyr::from_str_with_options::<Pairs<T>>(doc, o)
+            .map(|mut p| if p.0.len() == 1 { p.0.pop().map(|(k, _)| k) } else { None }),
         Pos::Root => serde_saphyr::from_str_with_options::<T>(doc, o).map(Some),
         Pos::Seq => serde_saphyr::from_str_with_options::<Vec<T>>(doc, o).map(|mut v| if v.len() == 1 { v.pop() } else { None }),
         Pos::Map => serde_saphyr::from_str_with_options::<BTreeMap<String, T>>(doc, o)
@@ -297,6 +416,7 @@ fn run_lib(t: &Tgt, doc: &str, pos: Pos, o: Options) -> Result<Option<Got>, Erro
         Base::Bytes => go!(Bytes, |v: Bytes| Got::Y(v.0)),
         Base::VecU8 => go!(Vec<u8>, Got::Y),
         Base::Val => go!(Val, Got::V),
+        Base::Enum => go!(Named, |v: Named| Got::S(format!("{v:?}"))),
     }
 }
 
@@ -556,6 +676,22 @@ fn expect_base(base: Base, sc: &Sc, o: Ob) -> Expect {
                 _ => soft("str:other-tag"),
             }
         }
+        // ------------------------------------------------ enum variant named by the scalar (unit form)
+        Base::Enum => {
+            if !matches!(sc.tag, TagC::None | TagC::Str) {
+                return Expect::any("enum:tagged-name");
+            }
+            let Some((_, dbg)) = NAMED_UNITS.iter().find(|(n, _)| *n == sc.value) else {
+                return if NAMED_NEWTYPES.iter().any(|(n, _, _)| *n == sc.value) {
+                    Expect::must_err("enum:newtype-variant-without-payload")
+                } else if block || ref_null(sc.value, sc.style) != Tri::No {
+                    Expect::any("enum:null-or-block-name")
+                } else {
+                    Expect::must_err("enum:unknown-name")
+                };
+            };
+            enum_name_expect(Got::S(dbg.to_string()), sc, o)
+        }
         // ------------------------------------------------ Vec<u8> from a !!binary scalar
         Base::VecU8 => {
             if sc.tag == TagC::Binary {
@@ -684,6 +820,43 @@ fn expect_base(base: Base, sc: &Sc, o: Ob) -> Expect {
             }
         }
     }
+}
+
+/// A scalar that names an enum variant (as the whole value, or as the key of `{name: payload}`).
+fn enum_name_expect(ok: Got, sc: &Sc, o: Ob) -> Expect {
+    let quoted = matches!(sc.style, Style::Single | Style::Double);
+    if quoted {
+        return Expect::must(ok, "enum:quoted-name");
+    }
+    if sc.style != Style::Plain {
+        return Expect::one_of(vec![ok], true, "enum:block-name");
+    }
+    match ambiguity(sc.value, o) {
+        Tri::No => Expect::must(ok, "enum:plain-name"),
+        Tri::Yes(()) if o.no_schema && sc.tag == TagC::None => Expect::must_err("enum:no-schema-needs-quoting"),
+        _ => Expect::one_of(vec![ok], true, "enum:plain-name-looks-like-non-string"),
+    }
+}
+
+/// Expectation for `{S: payload}` read as an enum: S names the variant.
+fn enum_key_expect(sc: &Sc, o: Ob) -> Expect {
+    if !matches!(sc.tag, TagC::None | TagC::Str) {
+        return Expect::any("enum:tagged-name");
+    }
+    if let Some((_, _, dbg)) = NAMED_NEWTYPES.iter().find(|(n, _, _)| *n == sc.value) {
+        return enum_name_expect(Got::S(dbg.to_string()), sc, o);
+    }
+    if NAMED_UNITS.iter().any(|(n, _)| *n == sc.value) {
+        return Expect::any("enum:unit-variant-with-payload");
+    }
+    if sc.style == Style::Literal || sc.style == Style::Folded || ref_null(sc.value, sc.style) != Tri::No {
+        return Expect::any("enum:null-or-block-name");
+    }
+    Expect::must_err("enum:unknown-name")
+}
+
+fn expect_at(t: &Tgt, sc: &Sc, o: Ob, pos: Pos) -> Expect {
+    if pos == Pos::EnumKey { enum_key_expect(sc, o) } else { expect(t, sc, o) }
 }
 
 fn expect(t: &Tgt, sc: &Sc, o: Ob) -> Expect {
@@ -960,6 +1133,21 @@ fn wrap(n: Node, pos: Pos) -> Node {
         Pos::Root => n,
         Pos::Seq => Node::seq(vec![n]),
         Pos::Map => Node::map(vec![(Node::plain("k"), n)]),
+        Pos::AliasSeq => Node::seq(vec![n.with_anchor("a"), Node::alias("a")]),
+        Pos::AliasMap => Node::map(vec![(Node::plain("a"), n.with_anchor("a")), (Node::plain("b"), Node::alias("a"))]),
+        Pos::MergeVal => Node::map(vec![
+            (Node::plain("base"), Node::map(vec![(Node::plain("k"), n)]).with_anchor("m")),
+            (Node::plain("d"), Node::map(vec![(Node::plain("<<"), Node::alias("m"))])),
+        ]),
+        Pos::Key => Node::map(vec![(n, Node::plain("v"))]),
+        Pos::EnumKey => {
+            let name = match &n {
+                Node::Scalar { text, .. } => text.trim_end_matches('\n').to_string(),
+                _ => String::new(),
+            };
+            let payload = NAMED_NEWTYPES.iter().find(|(v, _, _)| *v == name).map(|(_, p, _)| *p).unwrap_or("x");
+            Node::map(vec![(n, Node::plain(payload))])
+        }
     }
 }
 
@@ -968,6 +1156,19 @@ fn scalar_of(r: &RNode, pos: Pos) -> Option<&RNode> {
         (Pos::Root, n @ RNode::Scalar { .. }) => Some(n),
         (Pos::Seq, RNode::Seq { items, .. }) if items.len() == 1 => Some(&items[0]),
         (Pos::Map, RNode::Map { entries, .. }) if entries.len() == 1 => Some(&entries[0].1),
+        (Pos::AliasSeq, RNode::Seq { items, .. }) if items.len() == 2 && matches!(items[1], RNode::Alias { .. }) => Some(&items[0]),
+        (Pos::AliasMap, RNode::Map { entries, .. }) if entries.len() == 2 && matches!(entries[1].1, RNode::Alias { .. }) => {
+            Some(&entries[0].1)
+        }
+        (Pos::MergeVal, RNode::Map { entries, .. }) if entries.len() == 2 => match (&entries[0].1, &entries[1].1) {
+            (RNode::Map { entries: base, .. }, RNode::Map { entries: d, .. })
+                if base.len() == 1 && d.len() == 1 && matches!(d[0].1, RNode::Alias { .. }) =>
+            {
+                Some(&base[0].1)
+            }
+            _ => None,
+        },
+        (Pos::Key | Pos::EnumKey, RNode::Map { entries, .. }) if entries.len() == 1 => Some(&entries[0].0),
         _ => None,
     }
 }
@@ -987,6 +1188,17 @@ fn build_doc(text: &str, style: Style, tag: Option<&str>, pos: Pos, ro: &RenderO
     }
 }
 
+/// How `run_combo` registers distinct non-trivial cells.
+#[derive(Clone, Copy, PartialEq, Eq)]
+enum Nt {
+    /// hash(value, style, tag, target) once
+    Cell,
+    /// additionally hash(.., position) for every further position (arrival families)
+    PerPosition,
+    /// the caller decides (families whose tokens are mostly far from every grammar)
+    Never,
+}
+
 /// All cells of one (token, style, tag): every position × target × option vector.
 #[allow(clippy::too_many_arguments)]
 fn run_combo(
@@ -999,8 +1211,10 @@ fn run_combo(
     positions: &[Pos],
     opt_vectors: &[u8],
     ro: &RenderOpts,
+    targets: &[Tgt],
+    nt: Nt,
 ) {
-    let mut docs: Vec<(Pos, String)> = Vec::with_capacity(3);
+    let mut docs: Vec<(Pos, String)> = Vec::with_capacity(4);
     let mut value: Option<String> = None;
     for &pos in positions {
         match build_doc(&tok.text, style, tagsrc, pos, ro) {
@@ -1051,8 +1265,8 @@ fn run_combo(
         },
     );
     let sc = Sc { value: &value, style, tag: tagc };
-    for t in TARGETS {
-        let rel = relevant(t, tok.family);
+    for t in targets {
+        let rel = nt != Nt::Never && relevant(t, tok.family);
         let mask = oracle_option_mask(t.base);
         let mut memo: [Option<Expect>; 16] = Default::default();
         for &obits in opt_vectors {
@@ -1072,6 +1286,14 @@ fn run_combo(
                             style_name(style).as_bytes(),
                             tag_name(tagc).as_bytes(),
                             t.name.as_bytes(),
+                        ]));
+                    } else if nt == Nt::PerPosition && obits == opt_vectors[0] {
+                        run.nontrivial(fnv_parts(&[
+                            value.as_bytes(),
+                            style_name(style).as_bytes(),
+                            tag_name(tagc).as_bytes(),
+                            t.name.as_bytes(),
+                            pos_name(*pos).as_bytes(),
                         ]));
                     }
                 }
@@ -1097,6 +1319,7 @@ const T_BYTES: Tgt = Tgt { name: "Bytes", base: Base::Bytes, opt: false };
 const T_STRING: Tgt = Tgt { name: "String", base: Base::String, opt: false };
 const T_VAL: Tgt = Tgt { name: "Val", base: Base::Val, opt: false };
 const T_VECU8: Tgt = Tgt { name: "Vec<u8>", base: Base::VecU8, opt: false };
+const T_ENUM: Tgt = Tgt { name: "enum", base: Base::Enum, opt: false };
 
 fn b64_cells(run: &Run, loc: &mut Local, payload: &str, style: Style, nontrivial: bool, ro: &RenderOpts) {
     let Some((doc, value)) = build_doc(payload, style, Some("!!binary"), Pos::Root, ro) else {
@@ -1145,18 +1368,85 @@ fn decorate_b64(rng: &mut Rng, enc: &str) -> (String, Style) {
     }
 }
 
+// ------------------------------------------------------------------ deepening helpers
+
+const SHORT_ALPHABET: &[char] = &['0', '1', '7', '9', 'f', '_', 'x', 'o', 'b', '+', '-'];
+
+const SHORT_TARGETS: &[Tgt] = &[
+    Tgt { name: "i8", base: Base::I(8), opt: false },
+    Tgt { name: "u8", base: Base::U(8), opt: false },
+    Tgt { name: "i64", base: Base::I(64), opt: false },
+    Tgt { name: "u64", base: Base::U(64), opt: false },
+    Tgt { name: "i128", base: Base::I(128), opt: false },
+    Tgt { name: "u128", base: Base::U(128), opt: false },
+    Tgt { name: "f64", base: Base::F64, opt: false },
+    Tgt { name: "String", base: Base::String, opt: false },
+    Tgt { name: "Val", base: Base::Val, opt: false },
+];
+
+const FLOAT_TARGETS: &[Tgt] = &[
+    Tgt { name: "f32", base: Base::F32, opt: false },
+    Tgt { name: "f64", base: Base::F64, opt: false },
+    Tgt { name: "Option<f64>", base: Base::F64, opt: true },
+    Tgt { name: "Val", base: Base::Val, opt: false },
+    Tgt { name: "String", base: Base::String, opt: false },
+];
+
+const CHAR_TARGETS: &[Tgt] = &[
+    Tgt { name: "char", base: Base::Char, opt: false },
+    Tgt { name: "String", base: Base::String, opt: false },
+    Tgt { name: "via_deserialize_str", base: Base::ViaStr, opt: false },
+    Tgt { name: "Val", base: Base::Val, opt: false },
+];
+
+/// Does the coarse character class (std's predicates) change between `c`'s
+/// predecessor and `c`, or is `c` at the edge of a Unicode plane / the surrogate gap?
+fn char_class_boundary(c: char) -> bool {
+    fn class(c: char) -> u8 {
+        (c.is_alphabetic() as u8)
+            | (c.is_numeric() as u8) << 1
+            | (c.is_whitespace() as u8) << 2
+            | (c.is_control() as u8) << 3
+            | (c.is_uppercase() as u8) << 4
+            | (c.is_lowercase() as u8) << 5
+            | (c.is_ascii() as u8) << 6
+    }
+    let cp = c as u32;
+    if cp == 0 || cp & 0xFFFF == 0 || cp & 0xFFFF == 0xFFFF || cp == 0xD7FF || cp == 0xE000 || cp == 0x10FFFF {
+        return true;
+    }
+    match char::from_u32(cp - 1) {
+        Some(p) => class(p) != class(c),
+        None => true,
+    }
+}
+
+/// Confirm, with exact big-integer arithmetic, that the reference f64 and f32
+/// values of a decimal literal are the correctly rounded ones. Returns false (and
+/// records the case as inconclusive) when the two references disagree.
+fn confirm_float_reference(run: &Run, loc: &mut Local, text: &str) -> bool {
+    let Some(fr) = ref_float(text) else { return true };
+    match fr.confirmed_exactly() {
+        Some(true) => {
+            Local::bump(&mut loc.misc, "float_references_confirmed_by_exact_arithmetic");
+            true
+        }
+        Some(false) => {
+            run.inconclusive("model disagreement: std float parse vs exact-arithmetic rounding check");
+            false
+        }
+        None => true,
+    }
+}
+
 // ------------------------------------------------------------------ replay
 
 fn replay(run: &Run, case: &Value) {
     let doc = case["doc"].as_str().unwrap_or("");
-    let pos = match case["pos"].as_str() {
-        Some("seq") => Pos::Seq,
-        Some("map") => Pos::Map,
-        _ => Pos::Root,
-    };
+    let pos = pos_of_name(case["pos"].as_str().unwrap_or("root"));
     let tname = case["target"].as_str().unwrap_or("");
     let obits = case["opts"].as_u64().unwrap_or(0) as u8;
-    let Some(t) = TARGETS.iter().chain(std::iter::once(&T_VECU8)).find(|t| t.name == tname) else {
+    let Some(t) = TARGETS.iter().chain([&T_VECU8, &T_ENUM]).find(|t| t.name == tname) else {
         eprintln!("harness error: unknown target {tname}");
         std::process::exit(2);
     };
@@ -1174,7 +1464,7 @@ fn replay(run: &Run, case: &Value) {
         std::process::exit(2);
     };
     let sc = Sc { value, style: reftree::style_of(*style), tag: tagc };
-    let e = expect(t, &sc, ob(obits));
+    let e = expect_at(t, &sc, ob(obits), pos);
     eprintln!("replay: value={value:?} style={:?} tag={tagc:?} target={} opts={obits:#06b} expectation={e:?}", sc.style, t.name);
     let mut loc = Local::default();
     cell(run, &mut loc, t, &sc, &e, doc, pos, obits, true);
@@ -1205,8 +1495,8 @@ fn main() {
     for f in [Family::Int, Family::Float, Family::Bool, Family::Null, Family::Char, Family::Str, Family::B64] {
         run.count(&format!("corpus_tokens/{}", f.name()), corpus.iter().filter(|t| t.family == f).count() as u64);
     }
-    let quick_styles = [Style::Plain, Style::Double];
-    let quick_tags = [TagC::None, TagC::Str, TagC::Binary];
+    let quick_styles = [Style::Plain, Style::Double, Style::Literal];
+    let quick_tags = [TagC::None, TagC::Str, TagC::Binary, TagC::Int];
     par_range(corpus.len(), |i| {
         let tok = &corpus[i];
         let mut loc = Local::default();
@@ -1221,7 +1511,7 @@ fn main() {
                 if !take {
                     continue;
                 }
-                run_combo(&run, &mut loc, tok, style, tagc, tagsrc, POSITIONS, &all_opts, &ro);
+                run_combo(&run, &mut loc, tok, style, tagc, tagsrc, POSITIONS, &all_opts, &ro, TARGETS, Nt::Cell);
             }
         }
         if i % 997 == 0 {
@@ -1231,16 +1521,17 @@ fn main() {
     });
 
     // ---- 2. seeded tokens beyond the corpus
-    let n_random = tier.pick(12_000, 150_000);
+    let n_random = tier.pick(40_000, 700_000);
     par_range(n_random, |i| {
         let mut rng = Rng::stream(run.seed, i as u64);
         let tok = scalarcorpus::random_token(&mut rng);
         let mut loc = Local::default();
-        run_combo(&run, &mut loc, &tok, Style::Plain, TagC::None, None, POSITIONS, &all_opts, &ro);
+        confirm_float_reference(&run, &mut loc, &tok.text);
+        run_combo(&run, &mut loc, &tok, Style::Plain, TagC::None, None, POSITIONS, &all_opts, &ro, TARGETS, Nt::Cell);
         let style = *rng.pick(STYLES);
         let (tagc, tagsrc) = *rng.pick(TAGS);
         if !(style == Style::Plain && tagc == TagC::None) {
-            run_combo(&run, &mut loc, &tok, style, tagc, tagsrc, &[*rng.pick(POSITIONS)], &all_opts, &ro);
+            run_combo(&run, &mut loc, &tok, style, tagc, tagsrc, &[*rng.pick(POSITIONS)], &all_opts, &ro, TARGETS, Nt::Cell);
         }
         Local::bump(&mut loc.misc, "random_tokens");
         if i % 2999 == 0 {
@@ -1255,24 +1546,150 @@ fn main() {
         let mut loc = Local::default();
         for text in scalarcorpus::double_rounding_witnesses(&mut rng, 2) {
             let tok = Token { text, family: Family::Float };
-            run_combo(&run, &mut loc, &tok, Style::Plain, TagC::None, None, &[Pos::Root], &[0], &ro);
+            run_combo(&run, &mut loc, &tok, Style::Plain, TagC::None, None, &[Pos::Root], &[0], &ro, TARGETS, Nt::Cell);
             Local::bump(&mut loc.misc, "double_rounding_witnesses");
         }
         loc.flush(&run);
     });
 
+    // ---- 2b. 64/128-bit boundaries with a separator at every position of every radix form
+    let sep_tokens = scalarcorpus::int_separator_tokens();
+    run.count("separator_position_tokens", sep_tokens.len() as u64);
+    par_range(sep_tokens.len(), |i| {
+        let tok = &sep_tokens[i];
+        let mut loc = Local::default();
+        for style in [Style::Plain, Style::Double] {
+            for (tagc, tagsrc) in [(TagC::None, None), (TagC::Int, Some("!!int"))] {
+                run_combo(&run, &mut loc, tok, style, tagc, tagsrc, POSITIONS, &all_opts, &ro, TARGETS, Nt::Cell);
+            }
+        }
+        loc.flush(&run);
+    });
+
+    // ---- 2c. every short token over {0 1 7 9 f _ x o b + -} as a plain scalar
+    let short_len = tier.pick(6usize, 7);
+    for len in 1..=short_len {
+        let n = SHORT_ALPHABET.len().pow(len as u32);
+        par_batched(&run, n, 2048, |mut idx, loc| {
+            let mut text = String::with_capacity(len);
+            for _ in 0..len {
+                text.push(SHORT_ALPHABET[idx % SHORT_ALPHABET.len()]);
+                idx /= SHORT_ALPHABET.len();
+            }
+            let in_grammar = ref_int(&text, false).is_some() || ref_int(&text, true).is_some();
+            let tok = Token { text, family: if in_grammar { Family::Int } else { Family::Str } };
+            run_combo(&run, loc, &tok, Style::Plain, TagC::None, None, &[Pos::Root], &[0, 2, 4, 6], &ro, SHORT_TARGETS, if in_grammar { Nt::Cell } else { Nt::Never });
+            Local::bump(&mut loc.misc, "short_alphabet_tokens");
+            if in_grammar {
+                Local::bump(&mut loc.misc, "short_alphabet_tokens_with_integer_reading");
+            }
+        });
+    }
+
+    // ---- 2d. very long / extreme float literals; the reference value of every one is first
+    //          confirmed with exact big-integer arithmetic (independent of any float parser)
+    {
+        let mut rng = Rng::stream(run.seed ^ 0xF10A7, 0);
+        let long = scalarcorpus::long_float_tokens(&mut rng, tier.pick(400, 4000), tier.pick(200, 3000));
+        run.count("long_float_tokens", long.len() as u64);
+        par_batched(&run, long.len(), 16, |i, loc| {
+            let tok = &long[i];
+            if !confirm_float_reference(&run, loc, &tok.text) {
+                return;
+            }
+            run_combo(&run, loc, tok, Style::Plain, TagC::None, None, &[Pos::Root, Pos::Seq], &[0, 2], &ro, FLOAT_TARGETS, Nt::Cell);
+            if i % 1013 == 0 {
+                run.sample(|| json!({"part": "long-float", "token": tok.text.chars().take(120).collect::<String>(), "length": tok.text.len()}));
+            }
+        });
+    }
+    // the float references of the fixed corpus get the same confirmation
+    par_batched(&run, corpus.len(), 64, |i, loc| {
+        if matches!(corpus[i].family, Family::Float | Family::Int) {
+            confirm_float_reference(&run, loc, &corpus[i].text);
+        }
+    });
+
+    // ---- 2e. every Unicode scalar value as a one-character scalar
+    let n_cp = 0x11_0000usize;
+    par_batched(&run, n_cp, 512, |cp, loc| {
+        let Some(c) = char::from_u32(cp as u32) else { return };
+        if tier == Tier::Quick && cp >= 0x1_0000 && cp % 16 != 0 && !char_class_boundary(c) {
+            return;
+        }
+        let tok = Token { text: c.to_string(), family: Family::Char };
+        for style in [Style::Double, Style::Single, Style::Plain] {
+            run_combo(&run, loc, &tok, style, TagC::None, None, &[Pos::Root], &[0, 2], &ro, CHAR_TARGETS, Nt::Cell);
+        }
+        Local::bump(&mut loc.misc, "unicode_scalar_values");
+        if char_class_boundary(c) {
+            // around every change of character class also: two characters (never a char), and the map-key route
+            Local::bump(&mut loc.misc, "unicode_class_boundaries");
+            let two = Token { text: format!("{c}a"), family: Family::Char };
+            run_combo(&run, loc, &two, Style::Double, TagC::None, None, &[Pos::Root, Pos::Key], &[0], &ro, CHAR_TARGETS, Nt::Cell);
+            run_combo(&run, loc, &tok, Style::Double, TagC::None, None, &[Pos::Key, Pos::AliasSeq], &[0], &ro, CHAR_TARGETS, Nt::PerPosition);
+        }
+    });
+
+    // ---- 2f. the same scalars arriving through an alias, a merge, or as a mapping key
+    let arrival_opts: Vec<u8> = if tier == Tier::Quick { vec![0, 3, 12, 15] } else { all_opts.clone() };
+    par_range(corpus.len(), |i| {
+        let tok = &corpus[i];
+        let mut loc = Local::default();
+        let styles: &[Style] = tier.pick(&[Style::Plain, Style::Double], &[Style::Plain, Style::Double, Style::Literal]);
+        let tags: &[(TagC, Option<&str>)] = tier.pick(
+            &[(TagC::None, None), (TagC::Str, Some("!!str")), (TagC::Binary, Some("!!binary"))],
+            &[(TagC::None, None), (TagC::Str, Some("!!str")), (TagC::Binary, Some("!!binary")), (TagC::Int, Some("!!int")), (TagC::Null, Some("!!null"))],
+        );
+        for &style in styles {
+            for &(tagc, tagsrc) in tags {
+                run_combo(&run, &mut loc, tok, style, tagc, tagsrc, ARRIVALS, &arrival_opts, &ro, TARGETS, Nt::PerPosition);
+            }
+        }
+        loc.flush(&run);
+    });
+
+    // ---- 2g. enum variant names that look like scalars of every kind
+    {
+        let mut names: Vec<String> = NAMED_UNITS.iter().map(|(n, _)| n.to_string()).collect();
+        names.extend(NAMED_NEWTYPES.iter().map(|(n, _, _)| n.to_string()));
+        for extra in ["abd", "Abc", "2", "0x1f", "1_00", "tru", "TRUE", "y", "No", "nul", "1.50", ".Inf", "-0o17", "07", "two", "", "NT", "8", "on"] {
+            names.push(extra.to_string());
+        }
+        let mut loc = Local::default();
+        for name in &names {
+            for style in [Style::Plain, Style::Single, Style::Double, Style::Literal] {
+                for (tagc, tagsrc) in [(TagC::None, None), (TagC::Str, Some("!!str"))] {
+                    let tok = Token { text: name.clone(), family: Family::Str };
+                    run_combo(&run, &mut loc, &tok, style, tagc, tagsrc, &[Pos::Root, Pos::Seq, Pos::Map, Pos::AliasSeq], &all_opts, &ro, &[T_ENUM], Nt::PerPosition);
+                    // {name: payload}
+                    if let Some((doc, value)) = build_doc(name, style, tagsrc, Pos::EnumKey, &ro) {
+                        let sc = Sc { value: &value, style, tag: tagc };
+                        for obits in 0..16u8 {
+                            let e = enum_key_expect(&sc, ob(obits));
+                            cell(&run, &mut loc, &T_ENUM, &sc, &e, &doc, Pos::EnumKey, obits, obits == 0);
+                        }
+                        run.nontrivial(fnv_parts(&[value.as_bytes(), style_name(style).as_bytes(), tag_name(tagc).as_bytes(), b"enum-key"]));
+                        Local::bump(&mut loc.misc, "enum_key_documents");
+                    }
+                }
+            }
+        }
+        loc.flush(&run);
+    }
+
     // ---- 3. base64: exhaustive short strings over the 12-symbol alphabet
-    let max_len = tier.pick(5usize, 6);
+    let max_len = tier.pick(6usize, 7);
     let k = B64_SWEEP_ALPHABET.len();
     for len in 0..=max_len {
         let n = k.pow(len as u32);
         par_batched(&run, n, 4096, |idx, loc| {
             let s = nth_string(idx, len);
             let cleaned = s.chars().filter(|c| !matches!(c, ' ' | '\n')).count();
-            let near = matches!(cleaned % 4, 0 | 1 | 3);
+            let near = cleaned % 4 == 0;
             b64_cells(&run, loc, &s, Style::Double, near, &ro);
             if s.chars().all(|c| c != '\n') {
-                b64_cells(&run, loc, &s, Style::Plain, near, &ro);
+                b64_cells(&run, loc, &s, Style::Plain, false, &ro);
             }
             Local::bump(&mut loc.misc, "b64_sweep_strings");
             if idx % 100_003 == 0 {
@@ -1296,7 +1713,7 @@ fn main() {
         b64_cells(&run, loc, &enc, style, true, &ro);
         Local::bump(&mut loc.misc, "b64_roundtrip_arrays_len_le_2");
     });
-    let n_b64_random = tier.pick(20_000, 300_000);
+    let n_b64_random = tier.pick(40_000, 600_000);
     par_range(n_b64_random, |i| {
         let mut rng = Rng::stream(run.seed ^ 0xB64, i as u64);
         let len = if rng.chance(1, 8) { rng.range(3, 400) } else { rng.range(3, 48) };
